@@ -42,7 +42,14 @@ class VFS:
     def apply(self, op):
         k = op[0]
         n = self.nodes
-        if k == "create":
+        if k == "create_twin":  # an entry on another device that has the inode number of an existing one
+            _, p, kind, twin = op
+            if p in n or twin not in n or n.get(os.path.dirname(p), {}).get("kind") != "d" or n[twin]["dev"] != 7:
+                return False
+            if any(v["ino"] == n[twin]["ino"] and v["dev"] == 9 for v in n.values()):
+                return False
+            n[p] = {"kind": kind, "ino": n[twin]["ino"], "dev": 9, "mtime": 1000.0, "size": 1 if kind == "f" else 0}
+        elif k == "create":
             _, p, kind = op
             if p in n or n.get(os.path.dirname(p), {}).get("kind") != "d":
                 return False
@@ -228,6 +235,8 @@ class C10(Scenario):
             dirs = [p for p, n in v.nodes.items() if n["kind"] == "d" and p.count("/") < 5]
             ents = [p for p in v.nodes if p != ROOT]
             r = rng.random()
+            if r < 0.04 and ents:
+                return ["create_twin", rng.choice(dirs) + "/" + rng.choice(names), rng.choice("fd"), rng.choice(ents)]
             if r < 0.35 or not ents:
                 return ["create", rng.choice(dirs) + "/" + rng.choice(names), rng.choice("fd")]
             if r < 0.5:
@@ -243,7 +252,7 @@ class C10(Scenario):
 
         for _ in range(rng.randrange(0, 7)):
             op = rand_op()
-            if op[0] in ("create",) and v.apply(op):
+            if op[0] in ("create", "create_twin") and v.apply(op):
                 pre.append(op)
         between = []
         if rng.random() < 0.3:
